@@ -5,13 +5,16 @@ From GolemGen Require Import GenPure.
 Import ListNotations.
 Open Scope Z_scope.
 
+(* unfold whatever the translator generated (helpers extracted in the source included), however deep *)
+Ltac gen_unfold := repeat autounfold with golem_gen.
+
 (* ---------- Eq ---------- *)
 Lemma eq_is_builtin {T} (go_eq : T -> T -> bool) a b : eq_eq_Equal go_eq a b = go_eq a b.
 Proof. reflexivity. Qed.
 Lemma eq_int_spec a b : eq_eq_Equal Z.eqb a b = true <-> a = b.
-Proof. unfold eq_eq_Equal. apply Z.eqb_eq. Qed.
+Proof. gen_unfold. apply Z.eqb_eq. Qed.
 Lemma eq_string_spec a b : eq_eq_Equal str_eqb a b = true <-> a = b.
-Proof. unfold eq_eq_Equal. apply str_eqb_eq. Qed.
+Proof. gen_unfold. apply str_eqb_eq. Qed.
 
 (* an equivalence whenever the built-in == decides equality (it does for int and string) *)
 Lemma eq_equivalence {T} (go_eq : T -> T -> bool) :
@@ -20,7 +23,7 @@ Lemma eq_equivalence {T} (go_eq : T -> T -> bool) :
   (forall a b, eq_eq_Equal go_eq a b = eq_eq_Equal go_eq b a) /\
   (forall a b c, eq_eq_Equal go_eq a b = true -> eq_eq_Equal go_eq b c = true -> eq_eq_Equal go_eq a c = true).
 Proof.
-  intros H. unfold eq_eq_Equal. repeat split.
+  intros H. gen_unfold. repeat split.
   - intros a. apply H. reflexivity.
   - intros a b. destruct (go_eq a b) eqn:E1, (go_eq b a) eqn:E2; auto.
     + apply H in E1. subst. assert (go_eq b b = true) by (apply H; auto). congruence.
@@ -43,7 +46,7 @@ Lemma ord_int_spec a b :
   (ord_ord_Compare Z.ltb a b = ord_GT <-> b < a) /\
   (ord_ord_Compare Z.ltb a b = ord_EQ <-> a = b).
 Proof.
-  unfold ord_ord_Compare, ord_LT, ord_GT, ord_EQ.
+  gen_unfold.
   destruct (Z.ltb_spec a b), (Z.ltb_spec b a); repeat split; intros; try lia; try discriminate; auto.
 Qed.
 
@@ -52,7 +55,7 @@ Lemma ord_string_spec a b :
   (ord_ord_Compare str_ltb a b = ord_GT <-> str_ltb b a = true) /\
   (ord_ord_Compare str_ltb a b = ord_EQ <-> a = b).
 Proof.
-  unfold ord_ord_Compare, ord_LT, ord_GT, ord_EQ.
+  gen_unfold.
   destruct (str_trichotomy a b) as [(A & B & C)|[(A & B & C)|(A & B & C)]]; rewrite A, ?C;
     repeat split; intros; try discriminate; try congruence; auto.
 Qed.
@@ -69,22 +72,22 @@ Hypothesis Heq : forall a b, eqb a b = true <-> a = b.
 Let cmp := ord_ord_Compare lt.
 
 Lemma ord_total a b : cmp a b = ord_LT \/ cmp a b = ord_EQ \/ cmp a b = ord_GT.
-Proof. unfold cmp, ord_ord_Compare. destruct (lt a b); auto. destruct (lt b a); auto. Qed.
+Proof. unfold cmp. gen_unfold. destruct (lt a b); auto. destruct (lt b a); auto. Qed.
 Lemma ord_antisym a b : cmp a b = ord_LT <-> cmp b a = ord_GT.
 Proof.
-  unfold cmp, ord_ord_Compare, ord_LT, ord_GT, ord_EQ.
+  unfold cmp. gen_unfold.
   destruct (Htri a b) as [(A & B & C)|[(A & B & C)|(A & B & C)]]; rewrite A, C; split; intros; try discriminate; auto.
 Qed.
 Lemma ord_trans a b c : cmp a b = ord_LT -> cmp b c = ord_LT -> cmp a c = ord_LT.
 Proof.
-  unfold cmp, ord_ord_Compare, ord_LT, ord_GT, ord_EQ. intros H1 H2.
+  unfold cmp. gen_unfold. intros H1 H2.
   destruct (lt a b) eqn:E1; [|destruct (lt b a); discriminate].
   destruct (lt b c) eqn:E2; [|destruct (lt c b); discriminate].
   rewrite (Htrans a b c E1 E2). reflexivity.
 Qed.
 Lemma ord_eq_agrees a b : cmp a b = ord_EQ <-> eq_eq_Equal eqb a b = true.
 Proof.
-  unfold cmp, ord_ord_Compare, eq_eq_Equal, ord_LT, ord_GT, ord_EQ. rewrite Heq.
+  unfold cmp. gen_unfold. rewrite Heq.
   destruct (Htri a b) as [(A & B & C)|[(A & B & C)|(A & B & C)]]; rewrite A, ?C; split; intros; try discriminate; try congruence; auto.
 Qed.
 End OrdLaws.
